@@ -202,9 +202,26 @@ func init() {
 			c.Cell_ = fmt.Sprintf("%s m%d first=%s", c.Cell_, mode, stmtKindOf(c.Parts[1][0]))
 			cases = append(cases, c)
 		}
+		// the same relation when what precedes a sequence is LARGE: the sequence then stands at every alignment around the
+		// 64 KiB multiples of the image (position independence includes the position in the output file)
+		k := 0
+		for _, base := range []int64{0x10000, 0x20000, 0x30000} {
+			for delta := int64(-6); delta <= 2; delta++ {
+				for _, mode := range []int{16, 32} {
+					k++
+					if env.Tier == "quick" && k%3 != int(env.Seed%3) {
+						continue
+					}
+					c := &ConcatCase{Mode: mode}
+					c.Parts = [][]PStmt{{PStmt{K: "resb", N: base + delta}}, poolSeq(r, mode, 3, 6)}
+					c.Cell_ = fmt.Sprintf("large-prefix m%d base=%#x delta=%+d", mode, base, delta)
+					cases = append(cases, c)
+				}
+			}
+		}
 		rep.Rule = "seeded label-free, position-independent statement sequences A,B(,C) from the clean pool (instructions of every supported form, DB/DW/DD, RESB), one mode per program; " +
 			"A, B, C and A;B;C are assembled separately by the real pipeline and out(A;B;C) must equal out(A)++out(B)++out(C) (pairs, triples, and a single statement inserted at every position of 20-statement programs); " +
-			"non-trivial = all parts accepted without refusal; distinct = (shape, mode, kind of the first statement of B) cells"
+			"the same with a RESB of 64 KiB, 128 KiB, 192 KiB -6..+2 bytes as A, so that B stands at every alignment around those offsets of the image; non-trivial = all parts accepted without refusal; distinct = (shape, mode, kind of the first statement of B) cells"
 		outs := RunCases(env, cases)
 		for i := 0; i < 3 && i < len(cases); i++ {
 			c := cases[i].(*ConcatCase)
